@@ -54,7 +54,7 @@ structure GenSt where
 
 def labelPool (n : Nat) : List Label :=
   let alphas := (List.range (n + 2)).map Lb.Label.alpha
-  let greeks : List Label := ['x', 'ρ', 'σ', Char.ofNat 0x1D711, 'é'].map .greek
+  let greeks : List Label := ['x', 'ρ', 'σ', 'π', Char.ofNat 0x1D711, 'é'].map .greek
   let strs : List Label := ["foo", "hello", "αβ", "x y", "abcdefgh"].map (fun s => .str (Lb.pad8 s.toList))
   alphas ++ greeks ++ strs
 
@@ -441,11 +441,11 @@ structure TNode where
   data : Option Hex
 
 /-- a random tree of `k` nodes over the given ids; siblings get distinct labels from `pool` -/
-def genTree (rng : Rng) (ids : List Nat) (pool : List Label) : Rng × List TNode :=
+def genTree (rng : Rng) (ids : List Nat) (pool : List Label) (dens : Nat := 2) : Rng × List TNode :=
   match ids with
   | [] => (rng, [])
   | root :: rest =>
-    let (rng, d) := rng.below 2
+    let (rng, d) := rng.below dens
     let (rng, hx) := genHex rng
     let rootN : TNode := ⟨root, none, if d = 0 then some hx else none⟩
     rest.foldl (fun (acc : Rng × List TNode) v =>
@@ -459,7 +459,7 @@ def genTree (rng : Rng) (ids : List Nat) (pool : List Label) : Rng × List TNode
         let used := nodes.filterMap (fun c => match c.parent with | some (q, l) => if q = p then some l else none | none => none)
         let free := pool.filter (· ∉ used)
         let (rng, l) := rng.pick free
-        let (rng, d) := rng.below 2
+        let (rng, d) := rng.below dens
         let (rng, hx) := genHex rng
         (rng, nodes ++ [⟨v, some (p, l), if d = 0 then some hx else none⟩])) (rng, [rootN])
 
@@ -497,8 +497,19 @@ def genMerge (rng : Rng) (broken : Bool) : Rng × Array String :=
   let capR := kr + 1 + extraR + 3 + (if broken ∧ mode = 4 then many else 0)
   let (rng, idsL) := pickIds rng capL (kl + 1)
   let (rng, idsR) := pickIds rng capR (kr + 1)
-  let (rng, tl) := genTree rng idsL pool
+  -- the left tree often holds few data (so that one vertex holds the last unread datum of its group); now and then
+  -- a right vertex carries the very bytes a left vertex holds
+  let (rng, densL) := rng.pick [2, 2, 4, 7]
+  let (rng, tl) := genTree rng idsL pool densL
   let (rng, tr) := genTree rng idsR pool
+  let (rng, same) := rng.below 3
+  let leftData := tl.filterMap (·.data)
+  let (rng, tr) := if same = 0 ∧ leftData ≠ [] then
+      tr.foldl (fun (acc : Rng × List TNode) nd =>
+        let (rng, c) := acc.1.below 2
+        let (rng, d) := rng.pick leftData
+        (rng, acc.2 ++ [if c = 0 ∧ nd.data.isSome then { nd with data := some d } else nd])) (rng, [])
+    else (rng, tr)
   -- left graph g0
   let s0 := GenSt.start rng n capL
   let s0 := match s0.tryOps (treeOps tl) with | some x => x | none => s0
